@@ -1186,3 +1186,7 @@ mod test_token {
         }
     }
 }
+
+#[cfg(any(kani, libtw2_verif))]
+#[path = "/verif/kani/net_protocol.rs"]
+mod verif_kani;
